@@ -20,6 +20,10 @@ let option_map f = function
 | Some a -> Some (f a)
 | None -> None
 
+type ('a, 'b) sum =
+| Coq_inl of 'a
+| Coq_inr of 'b
+
 (** val fst : ('a1 * 'a2) -> 'a1 **)
 
 let fst = function
